@@ -362,8 +362,8 @@ def judge_fault(platform, case, r, clean):
     crisp = mode == "from"
     pid0rule = platform in PID0_RULE and pid == 0 and case.get("pid0_listed", True)
     classes = {fault_class(platform, f) for f in faults}
-    if "enoent" in classes and all(n.startswith("fs:") for (_i, n, f) in r.fired if f["errno"] == E.ENOENT):
-        classes = (classes - {"enoent"}) | {"nsp"}
+    procfs_enoent = "enoent" in classes and all(n.startswith("fs:") for (_i, n, f) in r.fired
+                                                if fault_class(platform, f) == "enoent")
     allowed = set()        # subset of {"NSP", "AD", "value", ("OSError", errno, winerror)}
     for (_fi, fired_name, f) in r.fired:
         k = fault_class(platform, f)
@@ -393,8 +393,14 @@ def judge_fault(platform, case, r, clean):
                 allowed.add(raw)
         if platform == "netbsd" and op in ("cmdline", "L:cmdline") and f["errno"] == E.EINVAL:
             allowed.add("value")        # documented: cmdline() ignores EINVAL of a live process -> []
-    if not crisp or len(faults) > 1 and mode == "pair":
-        allowed.add("value")
+    # fail-one: documented fall-backs may answer with a value.  Permission errors and procfs-ENOENT have many
+    # (Windows proc_info, SunOS uids()/gids(), SunOS "link not resolvable" handlers); for ESRCH and unrelated
+    # errnos only the handlers named here are deliberate, everything else must still raise.
+    if not crisp:
+        if classes & {"perm", "enoent", "enoent_procfs", "partial"} or mode == "pair":
+            allowed.add("value")
+        if platform == "sunos" and op in ("L:exe", "exe_layer") and all(n == "fs:readlink" for _i, n, _f in r.fired):
+            allowed.add("value")        # SunOS exe(): readlink failure -> guess from cmdline (comment in the code)
     if platform == "sunos" and pid == 0:
         state = "live"                  # the Solaris layer's pid_exists(0) is True by definition: no 'gone' PID 0
     if op in ("status",) and state in ("zombie", "live") and classes <= {"nsp", "enoent"}:
